@@ -20,8 +20,12 @@ MANIFEST = dict(
           "pairs, user-defined pairs on one registry, mixed), and for quantities made after a row of the registry was edited "
           "(modify by number / by quantity, remove + add; the system's length / mass / time / override symbol or the starting "
           "unit's; new scale a z3 real; system bound to the registry or a built-in one used from an edited registry) with "
-          "conversions of the same dimensions before the edit; any model is replayed on plain unyt. Bounded: unit names, "
-          "coefficients, compound shapes, request orders, system pairs and edit kinds are enumerated; rounding is outside."),
+          "conversions of the same dimensions before the edit, and for one unit spelling that means two things (two registries "
+          "whose rows of that symbol differ in dimension / size / offset, converted into a system they share - built-in, user-defined "
+          "and bound to no registry, or bound to the first registry - first from one, then from the other, then from the first "
+          "again; or one registry whose symbol was removed and added anew), all sizes z3 reals; any model is replayed on plain unyt. "
+          "Bounded: unit names, coefficients, compound shapes, request orders, system pairs, edit kinds and the pairs of meanings are "
+          "enumerated; rounding is outside."),
     design="DESIGN.md section 4 C10",
     technique="symbolic execution of the real Python code over z3 real terms; SMT (QF_NRA) obligations per path; counterexample replay")
 EXPLANATION = (
@@ -51,7 +55,16 @@ EXPLANATION = (
     "S[dimension] before, then modify / modify by quantity / remove+add of one row with a symbolic new scale, then the same "
     "obligations on quantities made after the edit, the oracle reading the harness' OWN copy of the rows (updated by the "
     "harness, not read back from the registry): a unit object, factor or units_map entry kept from before the edit shows up as "
-    "a term in the old scale symbol."
+    "a term in the old scale symbol. One spelling, two meanings (family tworeg): registries A and B both define 'xa' (and a time "
+    "unit 'xc'), with different dimensions (length/mass, energy/velocity, pressure/energy, SI current/Gaussian field), or the same "
+    "dimension and another symbolic size, or with/without a symbolic zero-point offset; the starting unit is spelled xa, kxa, "
+    "xa/xc, xa**2 or 3*xa; one of in_base / convert_to_base / get_base_equivalent / S[dimension] is called first on side A "
+    "(followed by the core obligations incl. the in-place and Unit-level twins), then the FULL battery runs on the quantity of "
+    "side B against the harness' own rows of B, then side A is converted again; variant 'readd': one registry, the symbol removed "
+    "and added with the other meaning between the calls. The system is one the registries share: the 7 built-in ones, a "
+    "user-defined one bound to no registry (with an override), and one bound to registry A whose own symbols have other symbolic "
+    "sizes in B. Anything a conversion leaves behind keyed by the spelling alone (on the system, a class, a module table, a unit "
+    "object of the other registry handed out again) shows up as a term in the other side's scale symbols or as a wrong dimension."
 )
 BOUNDS = {
     "quick": ("systems: 7 built-in + 8 user-defined (U1: 3 base units; U2: all optional base units + energy override; U3: no MKS current, "
@@ -79,14 +92,18 @@ BOUNDS = {
               "12 starting units. Registry edits: 8 user-defined systems bound to the registry + cgs, imperial, galactic used from a "
               "registry of the caller's x edited symbol (the system's length / mass / time symbol, the symbol of a declared derived unit, "
               "the starting unit's symbol) x 1 of 6 (kind: modify by number, by quantity, remove+add; x whether all 6 or 3 of the 6 "
-              "dimensions were converted before the edit), 6 starting units each, the full battery on one of them"),
+              "dimensions were converted before the edit), 6 starting units each, the full battery on one of them. One spelling, two "
+              "meanings: 9 systems (7 built-in, T1 unbound user-defined, W1 bound to the first registry) x 6 pairs of meanings x "
+              "1 of <= 5 spellings x 1 of 4 first calls x two registries or one registry edited (rotating; both for length/mass and "
+              "length/length on cgs, mks, T1, W1): 62 cases"),
     "thorough": ("as quick, plus: every table symbol x 4 U-systems and every table symbol with a symbolic-scale row x 7 built-in "
                  "systems (one case each); 1 symbol per dimension x 4 Q-systems; 2-element payloads for the table sweep; 24-symbol "
                  "compound pool, 6 rotations; 32 prefixed units; 75 harness-defined starting units x all 15 systems (Q-systems without "
                  "the atomic SI<->Gaussian units); named-dimension sweep in all 3 orders x 15 systems; histories x all 15 systems; "
                  "numbers in front: 3 coefficients as string + 2 as Unit object x all 15 systems; system to system: all 42 ordered pairs "
                  "of U1-U3/Q1-Q4, 8 mixed pairs, 6 starting units; registry edits: all 7 built-in systems, every (edit kind x before-set) "
-                 "combination for every edited symbol"),
+                 "combination for every edited symbol; one spelling, two meanings: every system x pair of "
+                 "meanings x spelling x (two registries, one registry edited), the first call rotating: 450 cases"),
 }
 OUTSIDE = ("IEEE rounding/overflow (A1) - compounds whose factorisation into a system's base units leaves the double range in a partial "
            "product (t_pl**8 ...) are skipped; integer/complex payloads (C17); the numeric correctness of table rows themselves (C02: the "
@@ -103,7 +120,8 @@ OUTSIDE = ("IEEE rounding/overflow (A1) - compounds whose factorisation into a s
            "of one dimension needs concrete scales); chains between planck / geometrized and user-defined systems (the products of "
            "their 1e-35 .. 1e-44 table scales with symbolic scales were not decided by z3 inside the budget: 1 path > 25 min); "
            "chains and registry edits are walked for the listed pairs / symbols / 6 "
-           "starting units, not for the whole unit table")
+           "starting units, not for the whole unit table; two registries that give a symbol of the SYSTEM's own units (cm, g ...) "
+           "different dimensions; offset-carrying spellings in compounds (unyt refuses them); more than two registries")
 
 NAMES = ["xl", "xm", "xt", "xtemp", "xang", "xcur", "xen", "xv", "xa", "xb", "xc", "xlum", "xlog", "xpr"]
 CODE_NAMES = ["code_length", "code_mass", "code_time", "code_temperature", "code_velocity", "code_magnetic", "code_pressure", "code_density"]
@@ -127,6 +145,9 @@ EM_DIMS = [
 EM_ATOMS = {"C", "T", "A", "V", "Ω", "ohm", "statC", "esu", "ESU", "G", "gauss", "statA", "statV", "statohm", "Fr"}
 
 _PRISTINE = {}
+# per-obligation solver ceiling of the families with symbolic base-unit scales (products of several scale symbols): the quick
+# tier's default of 10 s was hit by single queries of the chain family on a fully loaded machine (answered in < 1 s otherwise)
+OBLIG_MS = 60000
 
 
 def _prefix_sorted():
@@ -805,7 +826,7 @@ def make_user_case(variant, start, shape=()):
             reset_builtin(mods)
     sh = "" if shape == () else "/shape" + "x".join(map(str, shape))
     return Case(f"C10/user/{variant}/{start}{sh}", h, bounds="symbolic: value, all base-unit scales, starting-unit scale/offset",
-                budget_s=600, max_paths=3000, weight=20)
+                budget_s=600, max_paths=3000, oblig_timeout_ms=OBLIG_MS, weight=20)
 
 
 def make_user_table_case(variant, label, names):
@@ -828,7 +849,7 @@ def make_user_table_case(variant, label, names):
             if name is not None:
                 US.unit_system_registry.pop(name, None)
             reset_builtin(mods)
-    return Case(f"C10/usertab/{variant}/{label}", h, bounds="symbolic: value, all base-unit scales", budget_s=600, max_paths=3000,
+    return Case(f"C10/usertab/{variant}/{label}", h, bounds="symbolic: value, all base-unit scales", budget_s=600, max_paths=3000, oblig_timeout_ms=OBLIG_MS,
                 weight=4 * len(names))
 
 
@@ -973,7 +994,7 @@ def make_dimension_case(kind, system, order, names):
                 US.unit_system_registry.pop(popname, None)
             reset_builtin(mods)
     return Case(f"C10/dimensions/{system}/{order}", h, bounds="symbolic: values, base-unit scales of user-defined systems; "
-                "discrete: every named dimension, order of the requests", budget_s=600, max_paths=3000, weight=4 * len(names))
+                "discrete: every named dimension, order of the requests", budget_s=600, max_paths=3000, oblig_timeout_ms=OBLIG_MS, weight=4 * len(names))
 
 
 # sequences of conversions into ONE system inside one path (the units_map grows from step to step)
@@ -1037,7 +1058,7 @@ def make_history_case(kind, system, idx, seq):
                 US.unit_system_registry.pop(popname, None)
             reset_builtin(mods)
     return Case(f"C10/history/{system}/h{idx}", h, bounds="symbolic: values, base-unit scales; discrete: the sequence of conversions",
-                budget_s=600, max_paths=3000, weight=10)
+                budget_s=600, max_paths=3000, oblig_timeout_ms=OBLIG_MS, weight=10)
 
 
 # ----------------------------------------------------------------------------- starting units that carry a number
@@ -1157,7 +1178,7 @@ def make_coef_case(kind, system, form, coef, k, n):
             reset_builtin(mods)
     return Case(f"C10/coef/{system}/{form}-{coef[0]}/{k}", h, bounds="symbolic: value, base-unit scales of user-defined systems; "
                 "discrete: the number in front of the starting unit, its relation to the system's own unit, how it got there",
-                budget_s=600, max_paths=3000, weight=12)
+                budget_s=600, max_paths=3000, oblig_timeout_ms=OBLIG_MS, weight=12)
 
 
 # ----------------------------------------------------------------------------- from one system into another
@@ -1216,7 +1237,7 @@ def make_chain_case(s1, s2, idx, ustrs):
                 US.unit_system_registry.pop(n, None)
             reset_builtin(mods)
     return Case(f"C10/chain/{s1}>{s2}/{idx}", h, bounds="symbolic: values, base-unit scales of user-defined systems; discrete: the pair of systems, "
-                "the starting units", budget_s=600, max_paths=3000, weight=10 * len(ustrs))
+                "the starting units", budget_s=600, max_paths=3000, oblig_timeout_ms=OBLIG_MS, weight=10 * len(ustrs))
 
 
 # ----------------------------------------------------------------------------- registry edits between conversions
@@ -1327,7 +1348,162 @@ def make_regedit_case(variant, target, ekind, when):
                 US.unit_system_registry.pop(popname, None)
             reset_builtin(mods)
     return Case(f"C10/regedit/{variant}/{target}-{ekind}-{when}", h, bounds="symbolic: values, all scales, the new scale; discrete: which "
-                "symbol is edited, how, which dimensions were converted before", budget_s=600, max_paths=3000, weight=30)
+                "symbol is edited, how, which dimensions were converted before", budget_s=600, max_paths=3000, oblig_timeout_ms=OBLIG_MS, weight=30)
+
+
+# ----------------------------------------------------------------------------- one spelling, two meanings
+
+# The same unit spelling means something else in another registry (two datasets' code units), or in the same registry after
+# the symbol was removed and defined anew. Systems that are bound to no registry (all built-in ones, user-defined ones made
+# without registry=) are shared by every registry of the process; a system bound to one registry may be named from a quantity
+# of another. Whatever a conversion leaves behind on the system, on the classes or in module tables must not be keyed by the
+# spelling alone.
+# relation: what 'xa' is on side A / on side B (dimension name, has an offset)
+TWOREG_REL = {
+    "LM": (("length", False), ("mass", False)),            # another base dimension
+    "LL": (("length", False), ("length", False)),          # the same dimension, another size
+    "TT": (("temperature", True), ("temperature", False)),  # the same dimension, with / without a zero-point offset
+    "EV": (("energy", False), ("velocity", False)),        # declared (override) vs synthesised dimension
+    "PE": (("pressure", False), ("energy", False)),
+    "IB": (("current_mks", False), ("magnetic_field_cgs", False)),  # the SI <-> Gaussian route on one side
+}
+# how the starting unit is spelled (xc: a time unit on both sides, of another size on each)
+TWOREG_FORMS = {"atom": "xa", "prefixed": "kxa", "ratio": "xa/xc", "square": "xa**2", "coef": "3*xa"}
+# which call is made first on side A
+TWOREG_FIRST = ["in_base", "convert_to_base", "get_base_equivalent", "S[dimension]"]
+# 'two': two registries, A then B then A again; 'readd': one registry, the symbol removed and added anew between the calls
+TWOREG_HOW = ["two", "readd"]
+# systems: the built-in ones; T1 - user-defined, bound to no registry, with an override; W1 - user-defined, bound to registry A
+# (its own symbols xl, xm, xt have another size in registry B)
+TWOREG_SYSTEMS = BUILTIN + ["T1", "W1"]
+
+
+def make_tworeg_case(system, rel, form, first, how):
+    (dnA, offA), (dnB, offB) = TWOREG_REL[rel]
+    ustr = TWOREG_FORMS[form]
+
+    def h(ctx):
+        mods = ctx.mods
+        US = mods["US"]
+        unyt = mods["unyt"]
+        D = unyt.dimensions
+        reset_builtin(mods)
+        popname = None
+        try:
+            def new_registry(side):
+                reg = ctx.registry([])
+                ctx.add_row(reg, "xc", D.time, ctx.real(f"xc_s{side}", pos=True), 0.0)
+                if system == "W1":
+                    for n, dn in (("xl", "length"), ("xm", "mass"), ("xt", "time")):
+                        ctx.add_row(reg, n, getattr(D, dn), ctx.real(f"{n}_s{side}", pos=True), 0.0)
+                return reg
+
+            def meaning(side, dn, off):
+                return (ctx.real(f"xa_s{side}", pos=True), ctx.real(f"xa_o{side}") if off else 0.0, getattr(D, dn))
+
+            regA = new_registry("A")
+            mA = meaning("A", dnA, offA)
+            ctx.add_row(regA, "xa", mA[2], mA[0], mA[1], prefixable=True)
+            rowsA = dict(regA.lut)
+            keys = set(rowsA)
+            if how == "two":
+                regB = new_registry("B")
+                mB = meaning("B", dnB, offB)
+                ctx.add_row(regB, "xa", mB[2], mB[0], mB[1], prefixable=True)
+                rowsB = dict(regB.lut)
+            if system in BUILTIN:
+                S = US.unit_system_registry[system]
+                decl = dict(S.units_map)
+            elif system == "T1":
+                popname = "xsys_T1"
+                S = US.UnitSystem(popname, "km", "g", "hr", temperature_unit="R")
+                S["energy"] = "eV"
+                decl = _decl(mods, length=_psym("km"), mass=_psym("g"), time=_psym("hr"), temperature=_psym("R"), energy=_psym("eV"))
+            else:
+                popname = "xsys_W1"
+                S = US.UnitSystem(popname, "xl", "xm", "xt", registry=regA)
+                decl = _decl(mods, length=_psym("xl"), mass=_psym("xm"), time=_psym("xt"))
+            args = [S, S.name]
+
+            def src_of(q, m, rows):
+                if form == "atom":
+                    return m
+                if form == "prefixed":
+                    return (m[0] * PREFIX["k"], m[1] / PREFIX["k"], m[2])
+                sc, dd = oracle_unit(q.units.expr, rows, keys)
+                return (sc, 0.0, dd)
+
+            def light(stage, reg, m, rows, k, lead=None):
+                """one conversion with the core obligations and the in-place / Unit-level twins"""
+                x = ctx.real(f"x_{stage}")
+                q = ctx.quantity(x, ustr, reg)
+                src = src_of(q, m, rows)
+                arg = args[k % 2]
+                if lead == "convert_to_base":
+                    call(q.copy().convert_to_base, arg)
+                elif lead == "get_base_equivalent":
+                    call(q.units.get_base_equivalent, arg)
+                elif lead == "S[dimension]":
+                    call(S.__getitem__, src[2])
+                tag = f"{stage}:{ustr}"
+                if em_counterpart(mods, src[2]) is not None:
+                    battery(ctx, tag, q, [x], S, [("object", S), ("name", S.name)], reg, keys, src, decl=decl, lut=rows)
+                    return
+                r = light_step(ctx, tag, q, x, S, arg, reg, keys, src, decl, lut=rows)
+                want = system_unit(decl, src[2], rows, keys)
+                if r is None or want is None:
+                    return
+                w_expr, w_s, w_o = want
+                e = call(q.units.get_base_equivalent, args[(k + 1) % 2])
+                ctx.require(f"{tag}|get_base_equivalent: the system's own unit",
+                            e[0] == "ok" and And(same_expr(e[1].expr, w_expr), close(e[1].base_value, w_s), same_dims(e[1].dimensions, src[2])),
+                            got=str(e[1])[:80], want=str(w_expr))
+                c = q.copy()
+                rc = call(c.convert_to_base, arg)
+                ex = 1e-6 * (vabs(src[0] * src[1]) + vabs(w_s * w_o))
+                ctx.require(f"{tag}|convert_to_base: value and unit in the system's own units",
+                            rc[0] == "ok" and And(same_expr(c.units.expr, w_expr),
+                                                  close(si_of(payload(c)[0], w_s, w_o), si_of(x, src[0], src[1]), extra=ex)),
+                            got=str(c.units)[:80], want=str(w_expr))
+
+            # ---- side A first
+            light("A", regA, mA, rowsA, 0, lead=first)
+            # ---- the same spelling with its other meaning: the full battery
+            if how == "two":
+                regQ, mQ, rowsQ = regB, mB, rowsB
+            else:
+                mB = meaning("B", dnB, offB)
+                r = call(regA.remove, "xa")
+                if r[0] == "ok":
+                    kw = dict(prefixable=True)
+                    if offB:
+                        kw["offset"] = mB[1]
+                    r = call(regA.add, "xa", mB[0], mB[2], **kw)
+                ctx.require("the registry accepts remove + add", r[0] == "ok", err=repr(r[1])[:120])
+                rowsB = dict(rowsA)
+                rowsB["xa"] = (mB[0], mB[2], mB[1]) + tuple(rowsA["xa"][3:])
+                regQ, mQ, rowsQ = regA, mB, rowsB
+            xb = ctx.real("x_B")
+            qb = ctx.quantity(xb, ustr, regQ)
+            battery(ctx, f"B:{ustr}", qb, [xb], S, [("object", S), ("name", S.name)], regQ, keys, src_of(qb, mQ, rowsQ), decl=decl, lut=rowsQ)
+            # ---- and the first meaning again (its registry is still there)
+            if how == "two":
+                light("A2", regA, mA, rowsA, 1)
+        finally:
+            if popname is not None:
+                US.unit_system_registry.pop(popname, None)
+            reset_builtin(mods)
+    return Case(f"C10/tworeg/{system}/{rel}/{form}-{first}-{how}", h, bounds="symbolic: values, the scales (offset) of the spelling on "
+                "both sides, the system's own scales (W1); discrete: what the spelling means on each side, how it is written, which call "
+                "comes first, two registries or one edited", budget_s=600, max_paths=3000, oblig_timeout_ms=OBLIG_MS, weight=12)
+
+
+def tworeg_forms(rel):
+    if rel == "TT":
+        return ["atom", "prefixed"]  # (a unit with an offset takes no exponent, factor or number)
+    if rel == "IB":
+        return ["atom", "prefixed", "ratio"]
+    return list(TWOREG_FORMS)
 
 
 # ----------------------------------------------------------------------------- ill-defined systems
@@ -1527,6 +1703,21 @@ def cases(tier, mods):
                 n += 1
             for e, w in combos:
                 out.append(make_regedit_case(variant, target, e, w))
+    # one spelling, two meanings (two registries / one registry edited) x systems shared between registries
+    n = 0
+    for system in TWOREG_SYSTEMS:
+        for rel in TWOREG_REL:
+            forms = tworeg_forms(rel)
+            pick = (n // len(TWOREG_REL) + n) % len(forms)
+            for j, form in enumerate(forms):
+                if quick and j != pick:
+                    continue
+                for hj, how in enumerate(TWOREG_HOW):
+                    if quick and hj != (n // len(TWOREG_REL) + (n % len(TWOREG_REL)) // 2) % 2 and not (rel in ("LM", "LL") and system in ("cgs", "mks", "T1", "W1")):
+                        continue
+                    first = TWOREG_FIRST[(n + j + hj) % len(TWOREG_FIRST)]
+                    out.append(make_tworeg_case(system, rel, form, first, how))
+            n += 1
     return out
 
 
